@@ -234,6 +234,32 @@ func (w *World) writersWaiting(addr uintptr, delta int32) int32 {
 	return 0
 }
 
+// The kernel's own bookkeeping words (task states, counters) are read and written through these helpers: plain accesses
+// in functions the race detector does not instrument. Tasks and scheduler alternate through (hidden) channel hand-offs,
+// so the accesses are ordered in fact; but neither an atomic operation (which the detector treats as a release/acquire
+// pair between the goroutines involved) nor an instrumented plain access (which it would report) may tell it so -
+// otherwise the kernel itself would order, and thereby hide, the library's races.
+//
+//go:norace
+//go:noinline
+func ldi32(p *int32) int32 { return *p }
+
+//go:norace
+//go:noinline
+func sti32(p *int32, v int32) { *p = v }
+
+//go:norace
+//go:noinline
+func ldi64(p *int64) int64 { return *p }
+
+//go:norace
+//go:noinline
+func addi64(p *int64, d int64) int64 { *p += d; return *p }
+
+//go:norace
+//go:noinline
+func addi32(p *int32, d int32) int32 { *p += d; return *p }
+
 // simYield is a scheduling point inside a harness-owned seam (injected clock, rng, callbacks, interceptors).
 func simYield(point string) {
 	if w := curWorld.Load(); w != nil {
@@ -297,14 +323,17 @@ func NewWorld(tape *Tape, scenario string, trace bool) *World {
 	return w
 }
 
+//go:norace
 func (w *World) Close() { curWorld.Store(nil); simSelectSeed = 0 }
 
 //go:norace
 func (w *World) lookup(g uint64) *Task {
-	n := int(atomic.LoadInt32(&w.ntasks))
+	hideBegin()
+	defer hideEnd()
+	n := int(ldi32(&w.ntasks))
 	for i := 0; i < n; i++ {
 		t := w.tasks[i]
-		if t != nil && t.goid == g && atomic.LoadInt32(&t.state) != stDone {
+		if t != nil && t.goid == g && ldi32(&t.state) != stDone {
 			return t
 		}
 	}
@@ -313,7 +342,7 @@ func (w *World) lookup(g uint64) *Task {
 
 //go:norace
 func (w *World) pointIndex(point string) int {
-	n := int(atomic.LoadInt32(&w.npoints))
+	n := int(ldi32(&w.npoints))
 	for i := 0; i < n; i++ {
 		if w.pointNames[i] == point {
 			return i
@@ -334,7 +363,7 @@ func (w *World) pointIndex(point string) int {
 		// Per-point enablement is a pure function of the run's tape prefix and the point name, so it does not
 		// depend on the order in which points are first reached.
 		w.pointEnabled[n] = w.allPoints || strings.HasPrefix(point, "fault:") || (splitmix(hashString(point)^w.salt)%3 != 0)
-		atomic.StoreInt32(&w.npoints, int32(n+1))
+		sti32(&w.npoints, int32(n+1))
 	}
 	w.mu.Unlock()
 	hideEnd()
@@ -356,15 +385,27 @@ func (w *World) addTask(t *Task) {
 	}
 	t.idx = n
 	w.tasks[n] = t
-	atomic.StoreInt32(&w.ntasks, int32(n+1))
+	sti32(&w.ntasks, int32(n+1))
 	w.mu.Unlock()
 	hideEnd()
 }
 
 // hook is the simhook handler.
 //
+// hook is the simhook handler. Everything the kernel does on a task's (or a library) goroutine is hidden from the race
+// detector as far as synchronisation goes: its atomics and locks must not order the accesses of two tasks that the
+// library itself leaves unordered (an atomic store by one task followed by an atomic load by another is a
+// happens-before edge and would hide every race whose accesses lie on either side of it).
+//
 //go:norace
 func (w *World) hook(point string, try func() bool) {
+	hideBegin()
+	defer hideEnd()
+	w.hookHidden(point, try)
+}
+
+//go:norace
+func (w *World) hookHidden(point string, try func() bool) {
 	g := goid()
 	t := w.lookup(g)
 	if t == nil {
@@ -387,7 +428,7 @@ func (w *World) hook(point string, try func() bool) {
 		}
 		// internal goroutine in front of a mutex held by a parked task: adopt it until the mutex is free
 		t = &Task{W: w, Name: "auto:" + point, goid: g, wake: make(chan struct{}), done: make(chan struct{}), auto: true, daemon: true}
-		atomic.StoreInt32(&t.state, stRunning)
+		sti32(&t.state, stRunning)
 		w.addTask(t)
 		for {
 			t.gateFails++
@@ -403,7 +444,7 @@ func (w *World) hook(point string, try func() bool) {
 		return
 	}
 	pi := w.pointIndex(point)
-	atomic.AddInt64(&w.pointHits[pi], 1)
+	addi64(&w.pointHits[pi], 1)
 	en := w.pointEnabled[pi]
 	if try == nil {
 		if en && !t.noPark {
@@ -424,7 +465,7 @@ func (w *World) hook(point string, try func() bool) {
 	t.gateFails = 0
 	// Only the task released in this step can be here (every other task parks before probing), so the log needs no lock.
 	if w.RecordGates && w.ngates < len(w.gateLog) {
-		w.gateLog[w.ngates] = GatePass{Task: t.Name, Point: point, Step: atomic.LoadInt64(&w.step)}
+		w.gateLog[w.ngates] = GatePass{Task: t.Name, Point: point, Step: ldi64(&w.step)}
 		w.ngates++
 	}
 }
@@ -436,16 +477,16 @@ func (w *World) adoptSpawned(point string, g uint64) {
 	// Only goroutines started by a task (or by an adopted goroutine): what the scenario's own set-up code starts while no
 	// task is running it keeps the eager behaviour - when exactly such a goroutine first runs relative to the set-up
 	// code is up to the Go scheduler, so nothing may depend on it.
-	if n := int(atomic.LoadInt32(&w.ntasks)); n == 0 || n > maxTasks-24 || w.lookup(parentGoid()) == nil {
+	if n := int(ldi32(&w.ntasks)); n == 0 || n > maxTasks-24 || w.lookup(parentGoid()) == nil {
 		return
 	}
 	pi := w.pointIndex(point)
 	if !w.pointEnabled[pi] {
 		return
 	}
-	k := atomic.AddInt32(&w.spawnSeq[pi], 1)
+	k := addi32(&w.spawnSeq[pi], 1)
 	t := &Task{W: w, Name: fmt.Sprintf("%s#%d", strings.TrimPrefix(point, "auto:"), k), goid: g, wake: make(chan struct{}), done: make(chan struct{}), daemon: true, spawned: true}
-	atomic.StoreInt32(&t.state, stRunning)
+	sti32(&t.state, stRunning)
 	w.addTask(t)
 	t.park("start", true)
 }
@@ -454,9 +495,9 @@ func (w *World) adoptSpawned(point string, g uint64) {
 //
 //go:norace
 func (w *World) anyParked() bool {
-	n := int(atomic.LoadInt32(&w.ntasks))
+	n := int(ldi32(&w.ntasks))
 	for i := 0; i < n; i++ {
-		if atomic.LoadInt32(&w.tasks[i].state) == stParked {
+		if ldi32(&w.tasks[i].state) == stParked {
 			return true
 		}
 	}
@@ -464,6 +505,8 @@ func (w *World) anyParked() bool {
 }
 
 // LazyGoroutines reports whether library-started goroutines are scheduled lazily in this run.
+//
+//go:norace
 func (w *World) LazyGoroutines() bool { return w.lazyGo }
 
 // GatePass records that a task went through a lock gate in a given step.
@@ -489,15 +532,17 @@ func hiddenTry(try func() bool) bool {
 //
 //go:norace
 func (t *Task) park(point string, preemptible bool) {
+	hideBegin()
+	defer hideEnd()
 	t.point = point
 	t.preemptible = preemptible
-	atomic.StoreInt32(&t.state, stParked)
-	hideBegin()
+	sti32(&t.state, stParked)
 	<-t.wake
-	hideEnd()
 }
 
 // Go starts a harness task. Must be called from inside the bubble.
+//
+//go:norace
 func (w *World) Go(name string, daemon bool, f func(t *Task)) *Task {
 	t := &Task{W: w, Name: name, wake: make(chan struct{}), done: make(chan struct{}), daemon: daemon}
 	w.addTask(t)
@@ -519,9 +564,13 @@ func (w *World) Go(name string, daemon bool, f func(t *Task)) *Task {
 
 // Adopt registers the calling (library-started) goroutine as a task and parks it once.
 // The caller must call Done when the goroutine leaves harness code for good.
+//
+//go:norace
 func (w *World) Adopt(name string, daemon bool) *Task {
+	hideBegin()
+	defer hideEnd()
 	t := &Task{W: w, Name: name, wake: make(chan struct{}), done: make(chan struct{}), daemon: daemon, goid: goid()}
-	atomic.StoreInt32(&t.state, stRunning)
+	sti32(&t.state, stRunning)
 	w.addTask(t)
 	t.park("start", true)
 	return t
@@ -537,10 +586,13 @@ func (t *Task) Detach() { t.daemon = true }
 //
 //go:norace
 func (t *Task) Done() {
+	hideBegin()
+	defer hideEnd()
 	close(t.done)
-	atomic.StoreInt32(&t.state, stDone)
+	sti32(&t.state, stDone)
 }
 
+//go:norace
 func (t *Task) finish() {
 	if r := recover(); r != nil {
 		buf := make([]byte, 16<<10)
@@ -569,6 +621,8 @@ func (t *Task) Sleep(d time.Duration) {
 }
 
 // Yield is a harness-level scheduling point.
+//
+//go:norace
 func (t *Task) Yield(op string) { t.park(op, true) }
 
 // Settle parks the task until nothing else can run: every other task (library goroutines that were adopted included)
@@ -583,33 +637,55 @@ func (t *Task) Settle(op string) {
 }
 
 // NoPark switches parking at plain library yield points off (gates still park) for coarse-grained scenarios.
+//
+//go:norace
 func (t *Task) NoPark(v bool) { t.noPark = v }
 
 // Step returns the global step counter: constant between two scheduling decisions.
 //
 //go:norace
-func (w *World) Step() int64 { return atomic.LoadInt64(&w.step) }
+func (w *World) Step() int64 {
+	hideBegin()
+	defer hideEnd()
+	return ldi64(&w.step)
+}
 
 // Note appends to the task-local log (merged into the trace after the run, in task order).
+//
+//go:norace
 func (t *Task) Note(format string, args ...any) {
 	t.notes = append(t.notes, fmt.Sprintf(format, args...))
 }
 
 // MarkNontrivial lets a scenario with its own notion of a non-trivial case flag the run; Mix adds to the fingerprint.
+//
+//go:norace
 func (w *World) MarkNontrivial() { w.nontrivial = true }
 
 // MarkRuntimeChoice declares that this run contains select statements with several ready cases (see runtimeChoice).
+//
+//go:norace
 func (w *World) MarkRuntimeChoice() { w.runtimeChoice = true }
 
 // SetCase names the point of a finite case space this run covered (reported as measured coverage of that space).
+//
+//go:norace
 func (w *World) SetCase(c string) { w.caseKey = c }
 
 // SetCaseTotal states the size of that case space when the scenario itself can compute it.
+//
+//go:norace
 func (w *World) SetCaseTotal(n int) { w.caseTotal = n }
-func (w *World) Mix(s string)       { w.mix(s) }
-func (w *World) SetMaxSteps(n int)  { w.maxSteps = n }
+
+//go:norace
+func (w *World) Mix(s string) { w.mix(s) }
+
+//go:norace
+func (w *World) SetMaxSteps(n int) { w.maxSteps = n }
 
 // Note from the scheduler goroutine.
+//
+//go:norace
 func (w *World) Note(format string, args ...any) {
 	w.notes = append(w.notes, fmt.Sprintf(format, args...))
 }
@@ -624,9 +700,13 @@ func (w *World) Violate(class, detail string, key map[string]any) {
 }
 
 // Fault counts a fault (or probe) that actually fired.
+//
+//go:norace
 func (w *World) Fault(kind string) {
+	hideBegin()
+	defer hideEnd()
 	pi := w.pointIndex("fault:" + kind)
-	atomic.AddInt64(&w.pointHits[pi], 1)
+	addi64(&w.pointHits[pi], 1)
 }
 
 //go:norace
@@ -647,12 +727,12 @@ func (w *World) collect(elig []parkedInfo) (out []parkedInfo, blockedGates int, 
 	out = elig[:0]
 	var settlingBuf [8]parkedInfo
 	settling := settlingBuf[:0]
-	n := int(atomic.LoadInt32(&w.ntasks))
+	n := int(ldi32(&w.ntasks))
 	now := time.Now()
 	w.nextWake = time.Time{}
 	for i := 0; i < n; i++ {
 		t := w.tasks[i]
-		switch atomic.LoadInt32(&t.state) {
+		switch ldi32(&t.state) {
 		case stParked:
 			if !t.wakeAt.IsZero() && now.Before(t.wakeAt) {
 				if w.nextWake.IsZero() || t.wakeAt.Before(w.nextWake) {
@@ -704,7 +784,7 @@ func (w *World) collect(elig []parkedInfo) (out []parkedInfo, blockedGates int, 
 
 //go:norace
 func (w *World) unblockAll() {
-	n := int(atomic.LoadInt32(&w.ntasks))
+	n := int(ldi32(&w.ntasks))
 	for i := 0; i < n; i++ {
 		w.tasks[i].gateBlocked = false
 		w.tasks[i].gateWait = 0
@@ -713,7 +793,7 @@ func (w *World) unblockAll() {
 
 //go:norace
 func (w *World) release(t *Task) {
-	n := int(atomic.LoadInt32(&w.ntasks))
+	n := int(ldi32(&w.ntasks))
 	for i := 0; i < n; i++ {
 		if o := w.tasks[i]; o != t && o.gateBlocked {
 			// another task takes a step: a blocked task may probe again once it has sat out its back-off
@@ -725,13 +805,14 @@ func (w *World) release(t *Task) {
 	if t.gateFails == 0 {
 		w.progress++ // not a mere re-probe of a gate
 	}
-	atomic.StoreInt32(&t.state, stRunning)
-	atomic.AddInt64(&w.step, 1)
+	sti32(&t.state, stRunning)
+	addi64(&w.step, 1)
 	hideBegin()
 	t.wake <- struct{}{}
 	hideEnd()
 }
 
+//go:norace
 func (w *World) mix(s string) {
 	h := w.fp
 	if h == 0 {
@@ -746,6 +827,7 @@ func (w *World) mix(s string) {
 	w.fp = h
 }
 
+//go:norace
 func (w *World) sleep(d time.Duration) {
 	hideBegin()
 	time.Sleep(d)
@@ -753,6 +835,8 @@ func (w *World) sleep(d time.Duration) {
 }
 
 // Advance jumps fake time by d while every task is withheld.
+//
+//go:norace
 func (w *World) Advance(d time.Duration) {
 	w.wait()
 	w.sleep(d)
@@ -766,7 +850,12 @@ func (w *World) Advance(d time.Duration) {
 }
 
 // Run schedules tasks until none is eligible (every task is finished, durably blocked, or blocked on a gate).
+//
+//go:norace
 func (w *World) Run() {
+	// (the scheduler's own atomics and channel operations are no synchronisation between tasks: see hook)
+	hideBegin()
+	defer hideEnd()
 	var buf [maxTasks]parkedInfo
 	var idleSpent time.Duration
 	for {
@@ -873,9 +962,9 @@ func (w *World) Run() {
 //
 //go:norace
 func (w *World) AutoPending() bool {
-	n := int(atomic.LoadInt32(&w.ntasks))
+	n := int(ldi32(&w.ntasks))
 	for i := 0; i < n; i++ {
-		if t := w.tasks[i]; t.auto && atomic.LoadInt32(&t.state) != stDone {
+		if t := w.tasks[i]; t.auto && ldi32(&t.state) != stDone {
 			return true
 		}
 	}
@@ -887,12 +976,12 @@ func (w *World) AutoPending() bool {
 //go:norace
 func (w *World) Unfinished(includeDaemons bool) []string {
 	var out []string
-	n := int(atomic.LoadInt32(&w.ntasks))
+	n := int(ldi32(&w.ntasks))
 	for i := 0; i < n; i++ {
 		t := w.tasks[i]
-		if atomic.LoadInt32(&t.state) != stDone && (includeDaemons || !t.daemon) && !t.auto {
+		if ldi32(&t.state) != stDone && (includeDaemons || !t.daemon) && !t.auto {
 			st := "blocked"
-			if atomic.LoadInt32(&t.state) == stParked {
+			if ldi32(&t.state) == stParked {
 				st = "parked@" + t.point
 			}
 			out = append(out, t.Name+":"+st)
@@ -903,7 +992,7 @@ func (w *World) Unfinished(includeDaemons bool) []string {
 
 //go:norace
 func (w *World) taskList() []*Task {
-	n := int(atomic.LoadInt32(&w.ntasks))
+	n := int(ldi32(&w.ntasks))
 	out := make([]*Task, 0, n)
 	for i := 0; i < n; i++ {
 		out = append(out, w.tasks[i])
@@ -992,17 +1081,18 @@ type RunResult struct {
 	RuntimeChoice bool
 }
 
+//go:norace
 func (w *World) result() *RunResult {
 	r := &RunResult{
 		Tape: append([]uint32(nil), w.Tape.Recorded()...), Trace: w.trace, Fingerprint: w.fp, Steps: w.Step(),
 		Switches: w.switches, Overlaps: w.overlaps, Faults: map[string]int{}, Truncated: w.truncated,
 		SimTime: time.Since(w.startTime), Hits: map[string]int64{}, Case: w.caseKey, CaseTotal: w.caseTotal, RuntimeChoice: w.runtimeChoice,
 	}
-	for i := 0; i < int(atomic.LoadInt32(&w.npoints)); i++ {
+	for i := 0; i < int(ldi32(&w.npoints)); i++ {
 		if f, ok := strings.CutPrefix(w.pointNames[i], "fault:"); ok {
-			r.Faults[f] = int(atomic.LoadInt64(&w.pointHits[i]))
+			r.Faults[f] = int(ldi64(&w.pointHits[i]))
 		} else {
-			r.Hits[w.pointNames[i]] = atomic.LoadInt64(&w.pointHits[i])
+			r.Hits[w.pointNames[i]] = ldi64(&w.pointHits[i])
 		}
 	}
 	r.Notes = append(r.Notes, w.notes...)
